@@ -136,13 +136,18 @@ def same(a, b):
 MERGE_PARAMS = {"CountMinLinear": ["width", "depth"], "CountMinLog16": ["width", "depth", "max_count", "num_reserved"], "CountMinLog8": ["width", "depth", "max_count", "num_reserved"], "HyperLogLog": ["p", "seed"], "HeavyHitters": ["width", "depth", "max_key_len"]}
 
 
-def try_pair(chk, ca, a, cb, b, how):
-    """run merge on the real classes for one ordered pair of configurations -> failing-input dict / None"""
+def try_pair(chk, ca, a, cb, b, how, records_only=False):
+    """run merge on the real classes for one ordered pair of configurations -> failing-input dict / None
+    (records_only: the other operand has seen records without elements - n_records > 0, n_added == 0)"""
     try:
         x, y = build(chk, ca, a), build(chk, cb, b)
     except (ValueError, TypeError, MemoryError, OverflowError):
         return None
     for s in (x, y):
+        if records_only and s is y:
+            if hasattr(s, "n_added_records"):
+                s.n_added_records[1] += 4  # as helpers._worker books processed records
+            continue
         s.add(b"k1")
         s.add(b"k2")
     sx, sy = snapshot(x), snapshot(y)
@@ -159,6 +164,11 @@ def try_pair(chk, ca, a, cb, b, how):
         bad = "incompatible sketches: %s" % ("merge accepted" if raised is None else "raised %s instead of TypeError" % raised)
     if not compatible and (not same(sx, snapshot(x)) or not same(sy, snapshot(y))):
         bad = (bad or "") + " operands modified"
+    if compatible and raised is None and "n_added_records" in sx:
+        want = [(int(sx["n_added_records"][i]) + int(sy["n_added_records"][i])) % 2**64 for i in (0, 1)]
+        got = [int(v) for v in snapshot(x)["n_added_records"][:2]]
+        if want != got:
+            bad = "after merge n_added/n_records are %s, the sums are %s" % (got, want)
     if bad:
         return {"key": "%s(%s).merge(%s(%s))" % (ca, a, cb, b), "self": [ca, a], "other": [cb, b], "observed": bad, "expected": "TypeError and unchanged operands" if not compatible else "merge succeeds", "how": how}
     return None
@@ -217,7 +227,24 @@ def replay_search(chk, A=None, B=None):
             r = try_pair(chk, ca, a, cb, b, "bounded grid on the real classes")
             if r:
                 return r
+            if ca == cb and a == b:
+                r = try_pair(chk, ca, a, cb, b, "bounded grid on the real classes (other operand: records without elements)", records_only=True)
+                if r:
+                    return r
     return None
+
+
+def merge_glue(chk, classes):
+    """the merge() methods of the given classes (same-class pairs): used by the properties whose
+    statement quantifies over merges (C02, C03, C09) - every accepting path calls the family's merge
+    kernel exactly once on the two operands' own tables, with the kernel's requires satisfied"""
+    ex = glue.make_exec(chk)
+    for A in classes:
+        try:
+            check_pair(chk, ex, A, A)
+        except X.Unsupported as e:
+            chk.undecided.append(("%s.merge(%s)" % (A, A), "unsupported construct in glue: %s" % e))
+    chk.assumptions.update(glue.ASSUMED)
 
 
 def run(chk):
